@@ -241,10 +241,19 @@ def make_core(env):
             return super().prepare_change()
 
     class ScriptedLibrary:
-        """tracklist.add(uris=...) goes through core.library.lookup: every dummy URI is one track."""
+        """tracklist.add(uris=...) goes through core.library.lookup."""
 
         def lookup_many(self, uris):
-            return {u: [env.track(env.index_of_uri(u))] for u in uris}
+            # "dummy:album:1-4-4" is a URI the library resolves to several tracks (or to none:
+            # "dummy:album:"); every other URI is one track
+            out = {}
+            for u in uris:
+                if u.startswith("dummy:album:"):
+                    body = u[len("dummy:album:"):]
+                    out[u] = [env.track(int(x)) for x in body.split("-") if x]
+                else:
+                    out[u] = [env.track(env.index_of_uri(u))]
+            return out
 
     class ProviderProxy:
         """Calls the provider synchronously and wraps results/exceptions in futures."""
